@@ -14,6 +14,21 @@ NOTE = ('Trusted: clang 14 front end, the extractor tools/theo_facts.cc, the Pyt
         'executed.')
 
 CLAIMS = {
+    'C09': ('comparator evaluation over all orderings (strict weak order + reference order), loop/iterator shape and dataflow rules over apply_macros / get_replacement / detector tables',
+            'PARTIAL. Decides the tie-break order exactly (finite evaluation of the comparator), the visiting order of priority bins, the '
+            'splice, the three cases of body instantiation, the agreement of the kind tables and the leftmost scan. Does not decide that '
+            'a detector matches exactly the derivations of its pattern or the longest match within one macro (LR engine).', '4/C09'),
+    'C10': ('dependency (taint) rule on the renaming expression + loop-counter dataflow',
+            'Decides that the new name of a temporary is a function of (its text, the pass counter, per-definition values) only, contains '
+            'a non-identifier character, becomes an ID, and that the pass counter identifies the expansion step (one rewrite per pass).', '4/C10'),
+    'C11': ('loop-shape rules (bounded counter, mutation confinement, flag discipline) + error forwarding',
+            'Decides that every mutation of the token stream is confined to a strictly bounded counted loop with one rewrite per '
+            'iteration, for all inputs and macro sets, and that exhaustion is reported and forwarded. Termination of each detect() call '
+            'is assumed.', '4/C11'),
+    'C12': ('data-flow/who-may-reach rules over detector lists, conflict-checked table writes, comparator evaluation of LR container keys',
+            'PARTIAL. Decides that a conflict becomes exactly one error at the pattern position, that rejected detectors never reach the '
+            'bins, that collection does not stop early, that every table write is conflict-checked and that prefix mode covers all columns. '
+            'Does not decide that conflicts coincide with non-prefix-determinism.', '4/C12'),
     'C02': ('allocation-site shape/nullness analysis of the syntax tree (parser + generator), guard/dominance rules for cursors, emptiness, ownership pairing, result dichotomy',
             'PARTIAL. Decides: no NULL syntax-tree pointer is dereferenced (parser on every execution with look-ahead-sensitive '
             'summaries; generator on every error-free tree shape), cursors/indices are guarded, back()/[0] only on provably '
